@@ -472,8 +472,8 @@ package compile
 //@   modifies *
 //@   ensures implies(node_child_by_type(dataDef, parse.NodeConfig) == nil, result.config == inherited.config)
 //@   ensures implies(node_child_by_type(dataDef, parse.NodeConfig) != nil, result.config == node_argbool(node_child_by_type(dataDef, parse.NodeConfig)) && implies(result.config, inherited.config))
-//@   ensures implies(node_child_by_type(dataDef, parse.NodeStatus) == nil, result.status == inherited.status)
-//@   ensures implies(node_child_by_type(dataDef, parse.NodeStatus) != nil, result.status >= inherited.status)
+//@   ensures implies(nstat(dataDef) == 0, result.status == inherited.status)
+//@   ensures result.status >= inherited.status && forall(k, 0, nstat(dataDef), result.status >= statusOf(stat(dataDef, k)))
 
 // Which grouping a uses names (C12): a grouping of the module the uses is expanded in is looked up in the scope of
 // the node that holds the uses (local groupings included); a grouping of another module (prefixed) is that module's -
